@@ -94,6 +94,14 @@ Definition rechecked_before_raise (k c : callid) (l : list tok) : bool :=
   | _, _ => false
   end.
 
+(* after the lock has been taken the flag is tested before the heartbeat is sent *)
+Definition rechecked_before_send (l : list tok) : bool :=
+  let tail := match tok_index (TAcq LHb) l with Some i => skipn (S i) l | None => [] end in
+  match index_of KTestRunning tail, index_of KSendHeartbeat tail with
+  | Some i, Some j => Nat.ltb i j
+  | _, _ => false
+  end.
+
 (* ---- C07: the reason is recorded before the channel reads as closed; the
         caller looks at the reasons again once it sees the channel closed ---- *)
 Definition chclose_shape_ok : bool :=
@@ -117,6 +125,19 @@ Definition tags_shape_ok : bool :=
   | None, _ => true
   | _, _ => false
   end.
+
+(* ---- C08 / C12: the heartbeat timer chain and stop() ---- *)
+Definition heartbeat_shape_ok : bool :=
+  (* stop(): clear the flag, then cancel under the lock *)
+  before KClearRunning KTimerCancel src_Heartbeat_stop && all_under LHb KTimerCancel src_Heartbeat_stop &&
+  (* _start_new_timer(): flag test, creation and start all under the lock *)
+  all_under LHb KTestRunning src_Heartbeat_start_new_timer &&
+  all_under LHb KTimerCreate src_Heartbeat_start_new_timer &&
+  all_under LHb KTimerStart src_Heartbeat_start_new_timer &&
+  before KTestRunning KTimerCreate src_Heartbeat_start_new_timer &&
+  (* _check_for_life_signs(): the heartbeat goes out under the lock, after the flag was looked at there *)
+  all_under LHb KSendHeartbeat src_Heartbeat_check_for_life_signs &&
+  rechecked_before_send src_Heartbeat_check_for_life_signs.
 
 (* ---- C10: number chosen, registered and opened under Connection.lock ---- *)
 Definition alloc_shape_ok : bool :=
